@@ -24,6 +24,9 @@ type ActCase struct {
 type Act struct {
 	Args []string `json:"args"`
 	Cwd  string   `json:"cwd,omitempty"`
+	// Damage: before this invocation the cache file of the project, if there is one, is left as an interrupted
+	// earlier run leaves it: truncated to half, empty, or overwritten with garbage
+	Damage string `json:"damage,omitempty"`
 }
 
 type actScen struct{}
@@ -134,6 +137,18 @@ func (actScen) Gen(r *Rng, cfg GenConfig) any {
 		}
 		c.Actions = append(c.Actions, a)
 	}
+	if cfg.Prop == "C19" && r.Chance(1, 8) {
+		// needs a cache to damage: put it after the first action and make that one a run from the project root
+		at := r.Range(1, len(c.Actions)-1)
+		c.Actions[at].Damage = Pick(r, []string{"truncate", "empty", "garbage"})
+		if r.Chance(2, 3) {
+			c.Actions[0] = Act{Args: []string{Pick(r, names)}}
+		}
+		if r.Chance(1, 2) {
+			c.Actions[at].Args = []string{Pick(r, names)}
+			c.Actions[at].Args = append(c.Actions[at].Args, Pick(r, acFlagSets)...)
+		}
+	}
 	return c
 }
 
@@ -204,6 +219,20 @@ func (actScen) Exec(w *World, cc any, prop string) *Result {
 			}
 			if d == "" {
 				break
+			}
+		}
+		if a.Damage != "" {
+			cf := filepath.Join(proj, ".spok", "cache.json")
+			if old, err := os.ReadFile(cf); err == nil {
+				switch a.Damage {
+				case "truncate":
+					must(os.WriteFile(cf, old[:len(old)/2], 0o644))
+				case "empty":
+					must(os.WriteFile(cf, nil, 0o644))
+				default:
+					must(os.WriteFile(cf, []byte("\x00\x00{\"half\": "), 0o644))
+				}
+				res.count("fault_fired:cache_file_damaged_" + a.Damage)
 			}
 		}
 		pre := Snap(w.Home)
